@@ -74,6 +74,7 @@ fn real_main() -> i32 {
             }
             code
         }
+        "c07child" => props::c07::child_main(args.get(1).map(String::as_str).unwrap_or("")),
         "replay" => {
             if args.len() < 2 {
                 usage();
@@ -119,6 +120,9 @@ fn real_main() -> i32 {
 fn main() {
     // every library call runs on a thread with the stack size of a normal main thread (8 MiB)
     let h = std::thread::Builder::new().stack_size(8 << 20).spawn(real_main).expect("spawn");
-    let code = h.join().unwrap_or(2);
+    let code = h.join().unwrap_or_else(|_| {
+        eprintln!("HARNESS-ERROR: simulator thread panicked: {:?}", sut::LAST_PANIC_GLOBAL.lock().ok().and_then(|g| g.clone()));
+        2
+    });
     std::process::exit(code);
 }
